@@ -25,7 +25,7 @@ PER_SHARD = {"quick": 100, "thorough": 1600}
 def shards(tier, seed):
     return [
         {"n": PER_SHARD[tier], "maxdim": 9 if tier == "quick" else 13, "depth": 4 if tier == "quick" else 6,
-         "watchdog_s": TIMEOUT[tier] - 30}
+         "stores": 40 if tier == "quick" else 600, "watchdog_s": TIMEOUT[tier] - 30}
         for _ in range(NSHARDS[tier])
     ]
 
@@ -58,15 +58,18 @@ def judge(recipe, np_vals, cfg, rec, res, wd):
     r = _REC.get("r")
     if rec["exc"] is not None or r is None or r.plan is None:
         return []
+    return judge_events(r, res, f"{_rc.cfg_name(cfg)} {cfg.get('compute_kw')}", {"config": cfg, "ops": gen.recipe_ops(recipe)})
+
+
+def judge_events(r, res, label, base_facts):
     out = []
     ev = list(r.events)
     plan = r.plan
     res["counters"]["events"] += len(ev)
-    ops = gen.recipe_ops(recipe)
 
     def V(kind, msg, **facts):
-        facts.update(config=cfg, ops=ops)
-        out.append({"kind": kind, "msg": f"{_rc.cfg_name(cfg)} {cfg.get('compute_kw')}: {msg}", "facts": facts})
+        facts.update(base_facts)
+        out.append({"kind": kind, "msg": f"{label}: {msg}", "facts": facts})
 
     kinds = [e[0] for e in ev]
     if kinds.count("compute_start") != 1 or kinds.count("compute_end") != 1:
@@ -121,15 +124,59 @@ def nontrivial(recipe, np_vals, cfg, rec):
     return rec["exc"] is None and (rec.get("plan") or {}).get("ops", 0) >= 2
 
 
-EXTRA = ("events", "ops_checked", "task_events")
+EXTRA = ("events", "ops_checked", "task_events", "store_calls")
 
 
 def run_shard(spec, workdir):
-    return _rc.run_cases(spec, workdir, prop=PROPERTY, judge=judge, extra_counters=EXTRA, choose_cfgs=choose_cfgs,
-                         per_run=per_run, nontrivial=nontrivial)
+    import os
+    import random
+    import shutil
+
+    from checks import c11
+
+    res = _rc.run_cases(spec, workdir, prop=PROPERTY, judge=judge, extra_counters=EXTRA, choose_cfgs=choose_cfgs,
+                        per_run=per_run, nontrivial=nontrivial)
+    # store / to_zarr workloads: region stores (explicit output-block lists), stores into existing targets
+    rng = random.Random(spec["seed"] + 31)
+    scratch = c11._rc.new_result(c11.EXTRA)
+    for k in range(spec.get("stores", 40)):
+        c = c11.draw_call(rng)
+        if c["executor"] == "seq":
+            c["executor"] = "single-threaded"
+        r = events.Recorder()
+        wd = os.path.join(workdir, f"s{k}")
+        _, obs = c11.run_call(c, wd, scratch, callbacks=[r])
+        shutil.rmtree(wd, ignore_errors=True)
+        res["evaluations"] += 1
+        if obs is None or r.plan is None:
+            continue
+        res["counters"]["store_calls"] += 1
+        res["nontrivial"].append(gen.rhash(["store", c]))
+        viols = judge_events(r, res, f"store call region={c['region']} target={c['target']} {c['api']}", {"store_call": c})
+        for v in viols:
+            v["property"] = PROPERTY
+            v["case"] = {"store_call": c}
+        res["violations"].extend(viols)
+    return res
 
 
 def replay(rep, workdir):
+    if "store_call" in rep["case"]:
+        import os
+
+        from checks import c11
+
+        res = _rc.new_result(EXTRA)
+        c = rep["case"]["store_call"]
+        r = events.Recorder()
+        _, obs = c11.run_call(c, os.path.join(workdir, "replay"), c11._rc.new_result(c11.EXTRA), callbacks=[r])
+        res["evaluations"] = 1
+        if obs is not None and r.plan is not None:
+            for v in judge_events(r, res, "store call", {"store_call": c}):
+                v["property"] = PROPERTY
+                v["case"] = rep["case"]
+                res["violations"].append(v)
+        return res
     return _rc.replay_case(rep, workdir, prop=PROPERTY, judge=judge, extra_counters=EXTRA, per_run=per_run)
 
 
@@ -140,6 +187,7 @@ def finalize(tier, merged):
         "floors": [
             ("operations whose advertised task count was checked", c.get("ops_checked", 0), 4000 if tier == "quick" else 80000),
             ("task-end notifications observed", c.get("task_events", 0), 15000 if tier == "quick" else 300000),
+            ("store/to_zarr calls (incl. region stores) whose events were checked", c.get("store_calls", 0), 300 if tier == "quick" else 5000),
         ],
         "assumptions": ASSUMPTIONS,
     }
